@@ -710,7 +710,8 @@ def sympy_identity(hyps, goal, time_limit=60):
     old = signal.signal(signal.SIGALRM, handler)
     signal.alarm(time_limit)
     try:
-        for strat in (lambda e: sp.expand(sp.expand_log(e, force=True)),
+        for strat in (lambda e: sp.cancel(sp.together(e)) if not e.has(sp.exp, sp.log) else e,
+                      lambda e: sp.expand(sp.expand_log(e, force=True)),
                       lambda e: sp.powsimp(sp.expand(sp.expand_log(e, force=True)), force=True),
                       lambda e: sp.simplify(sp.powsimp(sp.expand(sp.expand_log(e, force=True)), force=True))):
             if strat(d) == 0:
